@@ -61,15 +61,17 @@ neighbor 127.0.0.1 {{
   adj-rib-in {ribin};
   capability {{ asn4 {asn4}; operational enable; route-refresh enable; add-path {ap}; extended-message {ext}; {extra} }}
   family {{ {fam} }}
+  {block}
 }}
 """
 FEW = 'ipv4 unicast; ipv6 unicast;'
 CTX_SPEC = {
     # name: (asn4, add-path, extended-message, families, extra capability text)
-    'as4-all': ('enable', 'disable', 'disable', 'all;', ''),
+    # aigp / extended next hop are session options that gate value decoders: two sets enable them, the others do not
+    'as4-all': ('enable', 'disable', 'disable', 'all;', 'aigp enable; nexthop enable;'),
     'as2-few': ('disable', 'disable', 'disable', FEW, ''),
     'ap-all': ('enable', 'send/receive', 'disable', 'all;', ''),
-    'ext-all': ('enable', 'disable', 'enable', 'all;', ''),
+    'ext-all': ('enable', 'disable', 'enable', 'all;', 'aigp enable;'),
     'ext-ap-as2': ('disable', 'send/receive', 'enable', FEW, ''),
     'ms-few': ('enable', 'disable', 'disable', FEW, 'multi-session enable;'),
 }
@@ -81,7 +83,8 @@ class Ctx:
         from exabgp.configuration.check import _negotiated
 
         asn4, ap, ext, fam, extra = CTX_SPEC[name]
-        text = CONF.format(las=65000, pas=65001, ribin='true' if ribin else 'false', asn4=asn4, ap=ap, ext=ext, fam=fam, extra=extra)
+        block = 'nexthop { ipv4 unicast ipv6; ipv4 multicast ipv6; ipv4 mpls-vpn ipv6; ipv6 unicast ipv4; }' if 'nexthop enable' in extra else ''
+        text = CONF.format(las=65000, pas=65001, ribin='true' if ribin else 'false', asn4=asn4, ap=ap, ext=ext, fam=fam, extra=extra, block=block)
         c = Configuration([text], text=True)
         if not c.reload():
             raise RuntimeError(f'harness configuration {name} refused: {getattr(c, "error", "")}')
@@ -94,7 +97,8 @@ class Ctx:
 
         self.addpath = bool(self.neg.required(AFI.ipv4, SAFI.unicast))
         self.params = {'ctx': name, 'asn4': self.asn4, 'msg_size': self.msg_size, 'addpath_ipv4_unicast': self.addpath,
-                       'families': 'all' if fam == 'all;' else 'ipv4+ipv6 unicast'}
+                       'families': 'all' if fam == 'all;' else 'ipv4+ipv6 unicast', 'aigp': bool(self.neg.aigp),
+                       'extended_nexthop': len(self.neg.nexthop)}
 
 
 _CTX = {}
@@ -1131,10 +1135,11 @@ def shape_correspondence(run, blocks, recursive):
         reset_caches()
         with CallProbe() as p:
             try:
-                AttributeCollection().parse(bytes(blk), c.neg)
+                with Watchdog(10):
+                    AttributeCollection().parse(bytes(blk), c.neg)
             except Notify:
                 pass
-            except Exception:  # noqa: BLE001 - judged elsewhere
+            except (Exception, OutOfTime):  # noqa: BLE001 - judged elsewhere
                 pass
         impl.append((p.calls, p.max))
     body = 'Definition blocks : list (list Z) := [' + ';\n'.join(zbytes(b) for b in blocks) + '].\nEval vm_compute in (map shape blocks).\n'
@@ -1232,8 +1237,9 @@ def measure_time(tier):
         for size in sizes:
             body = bytes(f(size))
             try:
-                row[size] = decode_time(body, c, reps)
-            except Exception as exc:  # noqa: BLE001 - reported by the outcome oracle, not here
+                with Watchdog(60):
+                    row[size] = decode_time(body, c, reps)
+            except (Exception, OutOfTime) as exc:  # noqa: BLE001 - reported by the outcome oracle, not here
                 err = f'{type(exc).__name__} at {len(body)} octets'
                 break
         table[name] = {'seconds': {str(k): round(v, 6) for k, v in row.items()}, 'stopped': err}
@@ -1262,7 +1268,8 @@ def judge(case, o):
         sig = f'exception:{T}:{o[2]}' + ('' if stage == 'unpack' else f':{stage}')
         return sig, f'{T} body raises {o[2]} ({o[3]}) at stage {stage} instead of being decoded or refused with a NOTIFICATION'
     if o[0] == 'T':
-        return f'wedged:{T}', f'{T} body not decoded within {o[1]} s'
+        where = hang_where(case)
+        return f'hang:{T}:{where}', f'the decoder of a {len(case["body"])} octet {T} ({where}) was still running after {o[1]} s: it loops'
     if o[0] == 'N':
         if not defined_code(o[1], o[2]):
             if case['klass'] == 'valid':
@@ -1276,6 +1283,9 @@ def judge(case, o):
 def judge_read(case, o, ribin, api):
     """the property on what escapes Protocol.read_message -> (sig, what) or None"""
     T = tname(case['ty'])
+    if o[0] == 'T':
+        where = hang_where(case)
+        return f'hang:{T}:{where}', f'Protocol.read_message was still decoding a {len(case["body"])} octet {T} ({where}) after {o[1]} s: it loops'
     if o[0] == 'X':
         return f'exception:{T}:{o[2]}:read_message', f'{o[2]} ({o[3]}) escapes Protocol.read_message for a {T}'
     if o[0] == 'N':
@@ -1376,8 +1386,12 @@ def describe(case, o, entry='Message.unpack + forcing every lazy part', **kw):
     return d
 
 
+class OutOfTime(BaseException):
+    """not an Exception: no handler inside a decoder (or in observe) can swallow it"""
+
+
 class Watchdog:
-    """a decode that does not end is a finding, not a hung check"""
+    """a decode that does not end is a finding (`hang:`), not a hung check"""
 
     def __init__(self, seconds):
         self.seconds = seconds
@@ -1386,7 +1400,7 @@ class Watchdog:
         import signal
 
         def fire(signum, frame):
-            raise TimeoutError(f'no result after {self.seconds} s')
+            raise OutOfTime()
 
         self.old = signal.signal(signal.SIGALRM, fire)
         signal.setitimer(signal.ITIMER_REAL, self.seconds)
@@ -1398,12 +1412,55 @@ class Watchdog:
         signal.signal(signal.SIGALRM, self.old)
 
 
-def guarded(f, *a):
+HANGS = [0]
+
+
+def budget(body):
+    """seconds a decode may take: 64k octets decode in ~0.2 s on this machine; orders of magnitude above that per
+    octet, plus a floor for a loaded machine.  Once hangs are being found the floor shrinks, so that a decoder
+    that loops on a whole family of inputs costs minutes, not hours (every one is still reported)."""
+    floor = 5.0 if HANGS[0] < 3 else 1.5 if HANGS[0] < 20 else 0.5
+    return floor + len(body) / 2000.0
+
+
+def guarded(f, ty, body, *a):
+    b = budget(body)
     try:
-        with Watchdog(20):
-            return f(*a)
-    except TimeoutError:
-        return ('T', 20)
+        with Watchdog(b):
+            return f(ty, body, *a)
+    except OutOfTime:
+        HANGS[0] += 1
+        return ('T', round(b, 1))
+
+
+def guarded_neg(body, cx):
+    b = budget(body)
+    try:
+        with Watchdog(b):
+            return observe_negotiation(body, cx)
+    except OutOfTime:
+        return ('T', round(b, 1))
+
+
+def hang_where(case):
+    """which attribute / part of the message the decoder does not come back from: the first single attribute
+    (or the section) that still hangs on its own"""
+    if case['ty'] != 2:
+        return 'body'
+    b = case['body']
+    try:
+        lw = int.from_bytes(b[0:2], 'big')
+        la = int.from_bytes(b[2 + lw:4 + lw], 'big')
+        tlvs = walk_tlvs(b[4 + lw:4 + lw + la])
+    except Exception:  # noqa: BLE001
+        tlvs = None
+    if not tlvs:
+        return 'body'
+    for t in tlvs:
+        one = struct.pack('!H', 0) + struct.pack('!H', len(t)) + t
+        if guarded(observe, 2, one, ctx(case['ctx']))[0] == 'T':
+            return f'attribute-{t[1]}'
+    return 'body'
 
 
 def check(tier, seed):
@@ -1476,11 +1533,13 @@ def check(tier, seed):
     n_neg = 0
     for c in neg_cases:
         for cx in (ctx(c['ctx']), ms):
-            o = guarded(observe_negotiation, c['body'], cx)
+            o = guarded_neg(c['body'], cx)
             n_neg += 1
             if o and o[0] == 'X':
                 sig = f'exception:OPEN:{o[2]}:negotiate'
                 neg_fail.setdefault(sig, []).append((c, cx, o))
+            elif o and o[0] == 'T':
+                neg_fail.setdefault('hang:OPEN:negotiate', []).append((c, cx, o))
     # ---- Protocol.read_message on framed messages
     t0 = time.time()
     combos = [(True, ''), (False, ''), (True, 'parsed'), (False, 'parsed'), (True, 'consolidate'), (False, 'packets')]
@@ -1573,7 +1632,7 @@ def check(tier, seed):
                      cases_with_this_signature=len(lst))
         d['negotiated'] = cx.params
         run.fail_case(sig, f'the negotiation of a decodable peer OPEN raises {o[2]} ({o[3]})' if o[0] == 'X' else
-                      f'negotiation refuses with NOTIFICATION {o[1]}/{o[2]}, which no RFC defines', d)
+                      f'the negotiation of a decodable peer OPEN was still running after {o[1]} s', d)
     for sig, lst in sorted(read_fail.items()):
         if sig in failing and not sig.startswith('valid-refused'):
             continue
@@ -1614,8 +1673,8 @@ def check(tier, seed):
         cx = ctx('as4-all')
         while hi - lo > 1:
             mid = (lo + hi) // 2
-            o = observe(2, bytes(update([B().add(bytes([0x80, 0xFE, 0]) * mid)]).b), cx)
-            lo, hi = (lo, mid) if o[0] == 'X' else (mid, hi)
+            o = guarded(observe, 2, bytes(update([B().add(bytes([0x80, 0xFE, 0]) * mid)]).b), cx)
+            lo, hi = (lo, mid) if o[0] in ('X', 'T') else (mid, hi)
         threshold = hi
     run.coverage.update({
         'evaluations': n_obs,
@@ -1696,6 +1755,8 @@ def gen_targets(rng, tier):
             body = struct.pack('!HH', what, 3 + len(text)) + struct.pack('!HB', 1, 1) + text
             if len(body) <= 4096 - 19:
                 cases.append(mk(6, body, rng.choice(CTXS), 'target', 'operational-advisory', model=len(body) <= 700))
+    cases += gen_repeated(rng, tier)
+    cases += gen_open_boundaries(rng, tier)
     # OPEN: MULTISESSION (draft, 0x44 / cisco 0x83) with and without the MULTIPROTOCOL capability it groups on
     for ms in (cap_tlv(0x44, b''), cap_tlv(0x44, b'\x01'), cap_tlv(0x83, b''), cap_tlv(0x44, b'\x01\x02\x41')):
         for mp in ([], [cap_tlv(1, struct.pack('!HBB', 1, 0, 1))], [cap_tlv(1, struct.pack('!HBB', 2, 0, 1))]):
@@ -1716,13 +1777,156 @@ def replay(path):
     c = {'ty': case['message_type'], 'body': bytes.fromhex(case['body_hex']), 'ctx': case['negotiated']['ctx'],
          'klass': case.get('generated_as', 'replay/replay').split('/')[0], 'what': case.get('generated_as', 'replay/replay').split('/', 1)[1]}
     if case.get('entry_point', '').startswith('Protocol.read_message'):
-        o = observe_read_message(c['ty'], c['body'], c['ctx'], bool(case.get('adj_rib_in', True)), case.get('api_consumer') or '')
+        o = guarded(observe_read_message, c['ty'], c['body'], c['ctx'], bool(case.get('adj_rib_in', True)), case.get('api_consumer') or '')
         j = judge_read(c, o, None, None)
     elif 'Negotiated' in case.get('entry_point', ''):
-        o = observe_negotiation(c['body'], ctx(c['ctx']))
-        j = (f'exception:OPEN:{o[2]}:negotiate', 'negotiation raises') if o and o[0] == 'X' else None
+        o = guarded_neg(c['body'], ctx(c['ctx']))
+        j = (f'exception:OPEN:{o[2]}:negotiate', 'negotiation raises') if o and o[0] == 'X' else ('hang:OPEN:negotiate', 'hangs') if o and o[0] == 'T' else None
     else:
-        o = observe(c['ty'], c['body'], ctx(c['ctx']))
+        o = guarded(observe, c['ty'], c['body'], ctx(c['ctx']))
         j = judge(c, o)
     print(f'replay: observed {o}; ' + (f'still fails: {j[0]}' if j else 'passes'))
     return 1 if j else 0
+
+
+def sequences(items, rng):
+    """orders and repetitions of well-formed inner elements: [a] [a a] [a b] [a b a] [b a a] [a]*k ..."""
+    out = []
+    for a in items:
+        out += [[a], [a, a], [a, a, a], [a] * 20]
+        for b in items:
+            if b is not a:
+                out += [[a, b], [a, b, a], [b, a, a], [a, b, b, a]]
+    if len(items) > 2:
+        for _ in range(6):
+            out.append([rng.choice(items) for _ in range(rng.choice([3, 5, 12]))])
+    return out
+
+
+def gen_repeated(rng, tier):
+    """every attribute (and capability) that is a sequence of inner elements, with those elements REPEATED: a decoder
+    that handles "only the first one counts" must still move past the others.  On sessions that enable the
+    attribute (aigp enable, extended next hop) and on sessions that do not."""
+    cases = []
+    metric = lambda v: b'\x01\x00\x0b' + struct.pack('!Q', v)  # noqa: E731  RFC 7311: type 1, length 11 (header included)
+    families = {
+        # AIGP (26): TLV type(1) length(2, counts the header) value.  RFC 7311 3: a repeated AIGP TLV is ignored: VALID
+        26: (0x80, [metric(5), metric(9), b'\x02\x00\x05\xaa\xbb', b'\x07\x00\x03'], True),
+        # Prefix-SID (40): type(1) length(2) value: label-index (1, 7 octets), originator SRGB (3, 2+6n), SRv6 (5, 6), unknown
+        40: (0xC0, [b'\x01\x00\x07' + bytes(3) + struct.pack('!L', 100), b'\x03\x00\x08' + bytes(2) + bytes([0, 0x3e, 0x80, 0, 0x1f, 0x40]),
+                    b'\x03\x00\x0e' + bytes(2) + bytes([0, 0x3e, 0x80, 0, 0x1f, 0x40]) * 2, b'\x05\x00\x01\x00', b'\x06\x00\x01\x00', b'\x09\x00\x02\xab\xcd'], False),
+        # BGP-LS (29): type(2) length(2) value
+        29: (0x80, [struct.pack('!HH', 1024, 1) + b'\x80', struct.pack('!HH', 1026, 4) + b'node', struct.pack('!HH', 1028, 4) + bytes([1, 2, 3, 4]),
+                    struct.pack('!HH', 1088, 4) + bytes(4), struct.pack('!HH', 1095, 3) + bytes(3), struct.pack('!HH', 1155, 4) + bytes(4),
+                    struct.pack('!HH', 1099, 8) + bytes(8), struct.pack('!HH', 9999, 2) + b'zz'], False),
+        # TUNNEL_ENCAP (23): tunnel type(2) length(2) then sub-TLVs type(1) length(1; 2 when type >= 128)
+        23: (0xC0, [struct.pack('!HH', 8, 6) + bytes([4, 4, 0, 0, 0, 1]), struct.pack('!HH', 15, 10) + bytes([1, 8]) + bytes(8),
+                    struct.pack('!HH', 8, 12) + bytes([4, 4, 0, 0, 0, 1]) * 2, struct.pack('!HH', 13, 5) + bytes([128, 0, 2, 1, 2]),
+                    struct.pack('!HH', 999, 0)], False),
+        # lists of fixed-size elements: the same element repeated
+        8: (0xC0, [struct.pack('!HH', 65000, 1), struct.pack('!HH', 0xFFFF, 0xFF01)], True),
+        16: (0xC0, [bytes([0, 2]) + struct.pack('!HL', 65000, 1), bytes([0x80, 6]) + struct.pack('!Hf', 65000, 1.0), bytes([3, 0x0c]) + bytes(6)], True),
+        32: (0xC0, [struct.pack('!LLL', 65000, 1, 2), struct.pack('!LLL', 4200000000, 0, 0)], True),
+        10: (0x80, [bytes([1, 1, 1, 1]), bytes([2, 2, 2, 2])], True),
+        25: (0xC0, [bytes([0, 2]) + bytes(18), bytes([0, 3]) + bytes(18)], False),
+    }
+    for code, (flag, items, valid) in families.items():
+        for seq in sequences(items, rng):
+            val = b''.join(seq)
+            for ctxn in (('as4-all', 'as2-few') if tier == 'quick' else CTXS):
+                c = ctx(ctxn)
+                x = update(mandatory(rng, c) + [attr(flag, code, val)], nlri=[prefix4(rng, c.addpath)])
+                if len(x.b) + 19 <= c.msg_size:
+                    cases.append(mk(2, x.b, ctxn, 'valid' if valid else 'target', f'repeated-inner-elements-attribute-{code}', x.marks))
+    # AS_PATH: the same segment repeated; MP_REACH / MP_UNREACH: the same route repeated, next hop of every legal size
+    for ctxn in CTXS:
+        c = ctx(ctxn)
+        seg = bytes([2, 2]) + asn_bytes(65001, c.asn4) + asn_bytes(65002, c.asn4)
+        for k in (2, 3, 40):
+            x = update([attr(0x40, 1, b'\x00'), attr(0x40, 2, seg * k), attr(0x40, 3, bytes([10, 0, 0, 1]))], nlri=[prefix4(rng, c.addpath)])
+            cases.append(mk(2, x.b, ctxn, 'valid', 'repeated-as-path-segment', x.marks))
+        route6 = bytes(prefix6(rng, False).b)
+        ap6 = False
+        try:
+            from exabgp.protocol.family import AFI, SAFI
+
+            ap6 = bool(c.neg.required(AFI.ipv6, SAFI.unicast))
+        except Exception:  # noqa: BLE001
+            pass
+        if ap6:
+            route6 = struct.pack('!L', 7) + route6
+        for k in (2, 3, 50):
+            nh = bytes([0x20, 1, 0xd, 0xb8] + [0] * 11 + [1])
+            x = update(mandatory(rng, c, nh=False) + [attr(0x80, 14, struct.pack('!HBB', 2, 1, 16) + nh + b'\x00' + route6 * k)])
+            cases.append(mk(2, x.b, ctxn, 'valid', 'repeated-mp-route', x.marks))
+            x = update([attr(0x80, 15, struct.pack('!HB', 2, 1) + route6 * k)])
+            cases.append(mk(2, x.b, ctxn, 'valid', 'repeated-mp-route', x.marks))
+        r4 = bytes(prefix4(rng, c.addpath, 24).b)
+        cases.append(mk(2, update([], wd=[B().add(r4 * 30)]).b, ctxn, 'valid', 'repeated-withdrawn-route', model=True))
+        # RFC 8950: IPv4 routes with an IPv6 next hop in MP_REACH, where the session negotiated it
+        if len(c.neg.nexthop):
+            nh = bytes([0x20, 1, 0xd, 0xb8] + [0] * 11 + [1])
+            for nhv in (nh, nh + bytes([0xfe, 0x80] + [0] * 13 + [1])):
+                x = update(mandatory(rng, c, nh=False) + [attr(0x80, 14, struct.pack('!HBB', 1, 1, len(nhv)) + nhv + b'\x00' + bytes(prefix4(rng, c.addpath, 24).b) * 3)])
+                cases.append(mk(2, x.b, ctxn, 'target', 'extended-next-hop-route', x.marks))
+    # OPEN: capabilities whose value is a list, with repeated entries, and every capability sent twice
+    lists = {5: struct.pack('!HHH', 1, 1, 2), 69: struct.pack('!HBB', 1, 1, 3), 64: None, 76: struct.pack('!HBH', 1, 1, 10), 1: None}
+    for code, entry in lists.items():
+        for k in (2, 3, 20):
+            if code == 64:
+                val = struct.pack('!H', 120) + struct.pack('!HBB', 1, 1, 0x80) * k
+                caps = [cap_tlv(64, val)]
+            elif code == 1:
+                caps = [cap_tlv(1, struct.pack('!HBB', 1, 0, 1)) for _ in range(k)]
+            else:
+                caps = [cap_tlv(code, entry * k)]
+            for style in ('one-per-param', 'one-param', 'extended'):
+                x = open_body(rng, caps + [cap_tlv(65, struct.pack('!L', 65001))], style)
+                cases.append(mk(1, x.b, 'as4-all', 'valid', f'open-repeated-entries-capability-{code}', x.marks, model=True))
+    for name, b in valid_caps(rng):
+        x = open_body(rng, [b, b, b], rng.choice(['one-per-param', 'one-param', 'extended']))
+        cases.append(mk(1, x.b, rng.choice(CTXS + ['ms-few']), 'valid', 'open-capability-three-times', x.marks, model=True))
+    return cases
+
+
+def gen_open_boundaries(rng, tier):
+    """valid OPENs whose optional parameters total exactly 250..255 octets in the RFC 4271 encoding (the length octet 255
+    is NOT the RFC 9072 marker unless the type octet is 255 too), and 0..300+ octets in the RFC 9072 encoding"""
+    cases = []
+    base = [cap_tlv(1, struct.pack('!HBB', 1, 0, 1)), cap_tlv(65, struct.pack('!L', 65001))]   # 6 + 6 octets
+    for total in (200, 250, 251, 252, 253, 254, 255):
+        # one parameter: 2 (parameter header) + 12 + 2 (padding capability header) + pad
+        pad = total - 2 - 12 - 2
+        for padcode in (200, 99, 255, 0):
+            caps = base + [cap_tlv(padcode, bytes(rng.getrandbits(8) for _ in range(pad)))]
+            if rng.random() < 0.5:
+                caps = caps[::-1]
+            x = open_body(rng, caps, 'one-param')
+            assert x.b[9] == total and len(x.b) == 10 + total
+            cases.append(mk(1, x.b, rng.choice(CTXS), 'valid', f'open-classic-{total}-octets-of-parameters', x.marks, model=True))
+        # one capability per parameter: 8 + 8 for the base, padding capabilities of at most 40 octets
+        left = total - 16
+        caps = list(base)
+        while left > 0:
+            take = min(left, rng.choice([20, 30, 44]))
+            if 0 < left - take < 4:
+                take = left - 4
+            if take < 4:
+                break
+            caps.append(cap_tlv(rng.choice([200, 201, 202]), bytes(take - 4)))
+            left -= take
+        if left == 0:
+            x = open_body(rng, caps, 'one-per-param')
+            assert x.b[9] == total
+            cases.append(mk(1, x.b, rng.choice(CTXS), 'valid', f'open-classic-{total}-octets-of-parameters', x.marks, model=True))
+    for total in (0, 12, 250, 254, 255, 256, 257, 300, 1000, 4000):
+        # RFC 9072: 255, 255, length(2), parameters with a two octet length
+        caps = list(base) if total else []
+        left = total - 2 * 9 if total else 0
+        while left >= 5:
+            take = min(left, 200)
+            caps.append(cap_tlv(200, bytes(take - 5)))
+            left -= take
+        x = open_body(rng, caps, 'extended')
+        cases.append(mk(1, x.b, rng.choice(CTXS), 'valid', 'open-extended-parameters', x.marks, model=True, n=total))
+    return cases
